@@ -176,6 +176,23 @@ def runBudgets {ρ : Type} (step : Regs → Step ρ) : List Nat → Regs → Run
     | .running r' => runBudgets step ks r'
     | x => x
 
+/-! ### the heap side of `ConcatStrings`: strings are immutable values
+
+On completion the instruction allocates a FRESH `StringObject` for the result
+(`StringObject::new(s, self)`) and stores a pointer to it; no existing object is written.  The
+heap of string objects is a list of byte strings (address = index), allocation appends. -/
+
+abbrev Heap := List Bytes
+
+/-- `ConcatStrings` on the string objects at addresses `p` and `q`, executed in slices `ks` -/
+def concatHeap (h : Heap) (p q : Nat) (ks : List Nat) (r : Regs) : Option (Heap × Nat × Regs) :=
+  match h[p]?, h[q]? with
+  | some a, some b =>
+    match runBudgets (catStep a b) ks r with
+    | .finished v r' => some (h ++ [v], h.length, r')
+    | _ => none
+  | _, _ => none
+
 /-- `!=` is `EqualString` followed by `Not` -/
 def neOfEq (v : Bool) : Bool := !v
 
